@@ -90,6 +90,21 @@ func c05Inputs() []c05Input {
 			"2021/01/25:\n  coffee/cup/large: 1\n  coffee/cup: 1\n  Bread: 1\n  bread/rye/dark: 1\n  TEA: 1\n  tea: 1\n  coffee: 1\n  ba: 1\n"
 		out = append(out, c05Input{Name: "names-no-comparator-separates", Book: book, Log: lg})
 	}
+	// books in which SEVERAL recipes violate the depth limit (cycles; a chain two references longer than the limit): which
+	// of them is met first depends on the visiting order, the outcome - error text included - must not
+	for _, rb := range []struct {
+		name  string
+		book  absBook
+		depth string
+	}{
+		{"cycle-of-two", absBook{{"soup", []absIng{{"stock", 1}, {"cal", 1}}}, {"stock", []absIng{{"soup", 2}}}, {"ok", []absIng{{"cal", 1}}}}, "10"},
+		{"cycle-of-three-with-tail", absBook{{"t", []absIng{{"a", 1}}}, {"a", []absIng{{"b", 1}}}, {"b", []absIng{{"c", 1}, {"fat", 1}}}, {"c", []absIng{{"a", 1}}}}, "10"},
+		{"self-reference-and-cycle", absBook{{"s", []absIng{{"s", 1}}}, {"p", []absIng{{"q", 1}}}, {"q", []absIng{{"p", 1}}}}, "4"},
+		{"chain-two-longer-than-the-limit", absBook{{"e1", []absIng{{"e2", 1}}}, {"e2", []absIng{{"e3", 1}}}, {"e3", []absIng{{"e4", 1}}}, {"e4", []absIng{{"e5", 1}}}, {"e5", []absIng{{"cal", 1}}}}, "3"},
+	} {
+		lg := absLog{{Date: "2021/01/24", Entries: []absIng{{rb.book[0].Name, 1}, {"u1", 2}}}}
+		out = append(out, c05Input{Name: rb.name, Book: renderBook(rb.book), Log: renderLog(lg), Extra: []string{"--maxdepth", rb.depth}})
+	}
 	for _, sh := range shapes {
 		for _, extraDepth := range []int{0, 1} {
 			lg := absLog{{Date: "2021/01/24", Entries: []absIng{{sh.book[0].Name, 1}, {"u1", 2}}}, {Date: "2021/01/25", Entries: []absIng{{sh.book[1].Name, 2}, {"u2", 2}}}}
